@@ -54,6 +54,11 @@ def prepare():
         shutil.copy(nat, os.path.join(rsrc, 'mutators', 'verif_native.rs'))
         with open(os.path.join(rsrc, 'mutators', 'mod.rs'), 'a') as fh:
             fh.write('\n#[cfg(all(test, not(kani)))]\nmod verif_native;\n')
+    gnat = os.path.join(VERIF, 'kani', 'harness', 'gen_native.rs')
+    if os.path.exists(gnat):
+        shutil.copy(gnat, os.path.join(rsrc, 'generator', 'verif_native.rs'))
+        with open(os.path.join(rsrc, 'generator', 'mod.rs'), 'a') as fh:
+            fh.write('\n#[cfg(all(test, not(kani)))]\nmod verif_native;\n')
     gen = os.path.join(VERIF, 'build', 'gen', 'ref_tables_kani.rs')
     if os.path.exists(gen):
         shutil.copy(gen, os.path.join(rsrc, 'generator', 'ref_tables_kani.rs'))
